@@ -14,14 +14,17 @@ MANIFEST = dict(
           "globals frozen at compile time. Lean theorems (re-exported in D3/Properties/C20.lean) discharge the "
           "obligations under which these are unobservable for the modelled kernels: every array access of the AABB "
           "tree is in range for every insertion history and every query (insert_index_safe, query_index_safe, from C05), "
-          "the empty tree is handled (empty_tree_no_read), the typed support kernels never see a non-contiguous array "
+          "the empty tree is handled (empty_tree_no_read), the half-plane buffer of intersect_halfplanes is never "
+          "indexed out of range and its assert never fires, for every list of half-planes "
+          "(halfplane_buffer_index_safe, from C15), the typed support kernels never see a non-contiguous array "
           "for contiguous poses (typed_signatures_ok, from C14), constants read by the model equal the module constants "
           "(regenerated D3/Gen/Constants). "
           "Everything else is decided by a two-engine differential: the same call list (distance primitives, supports, "
           "AABBs, containment, GJK/EPA/MPR flavours, AABB-tree histories incl. empty trees, half-plane kernels, "
           "hydroelastic contact) is executed in two interpreter processes (JIT on as installed / NUMBA_DISABLE_JIT=1) "
           "and the serialised outputs are compared with the tolerances the property states."),
-    note=("the proof part covers index safety of the AABB-tree kernels only; numba's code generation itself is trusted "
+    note=("the proof part covers index safety of the AABB-tree kernels and of the half-plane buffer only; numba's code "
+          "generation itself is trusted "
           "to implement the documented semantics; the differential is sampling (labelled so in the evidence)"),
     technique="Lean 4 proof of semantic-gap obligations (index safety) + two-engine differential correspondence",
     design="§7 C20")
@@ -36,9 +39,9 @@ PARTIAL = {
     "numba_codegen": "numba's code generation is not verified; only the obligations that make its documented "
                      "deviations unobservable are (AABB tree index safety for every history and query, typed "
                      "signatures of the collider support kernels, the empty-tree reads)",
-    "other_kernels_index_safety": "index safety of the half-plane buffer (C15: F-C15-halfplane-buffer is a known finding), "
-                                  "EPA face/edge arrays and simplex arrays is covered by the owning properties' models "
-                                  "(checked reads) and by the differential only",
+    "other_kernels_index_safety": "index safety of the EPA face/edge arrays and simplex arrays is covered by the owning "
+                                  "properties' models (checked reads) and by the differential only (the half-plane "
+                                  "buffer is proved: halfplane_buffer_index_safe, after the repair F-C15-halfplane-buffer)",
 }
 ASSUMPTIONS = ["numba implements its documented semantics (negative-index wraparound, no bounds checks, assert supported)",
                "both engines run the same numpy/BLAS build"]
